@@ -57,9 +57,55 @@ func endSnapshotPred(w *World) func(ssa.Instruction) bool {
 	for _, n := range []string{"LazyAOFWriter.EndSnapshotMode", "LazyAOFWriter.EndSnapshotModeRequeue"} {
 		if f := w.FuncObj("pkg/persistence", n); f != nil {
 			fs = append(fs, f)
+			fs = append(fs, w.forwardersOf(f)...)
 		}
 	}
 	return callsTo(fs...)
+}
+
+// forwardersOf: the functions of the module that do nothing but call f and return what it returns (one block, one call):
+// `func (e *Engine) leaveSnapshotMode() (int, error) { return e.AOF.EndSnapshotModeRequeue() }`. A call of a forwarder is a
+// call of f for every ordering rule.
+func (w *World) forwardersOf(f *types.Func) []*types.Func {
+	if f == nil {
+		return nil
+	}
+	var out []*types.Func
+	for _, fi := range w.ModuleFuncs() {
+		fn := w.SSAFunc(fi.Obj)
+		if fn == nil || len(fn.Blocks) != 1 || fi.Obj == f {
+			continue
+		}
+		var call *ssa.Call
+		n := 0
+		for _, in := range fn.Blocks[0].Instrs {
+			if c, ok := in.(*ssa.Call); ok {
+				n++
+				call = c
+			}
+		}
+		if n != 1 || calleeObj(&call.Call) != f {
+			continue
+		}
+		ret, ok := fn.Blocks[0].Instrs[len(fn.Blocks[0].Instrs)-1].(*ssa.Return)
+		if !ok || len(ret.Results) == 0 {
+			continue
+		}
+		all := true
+		for _, rv := range ret.Results {
+			if rv == ssa.Value(call) {
+				continue
+			}
+			if ex, ok := rv.(*ssa.Extract); ok && ex.Tuple == ssa.Value(call) {
+				continue
+			}
+			all = false
+		}
+		if all {
+			out = append(out, fi.Obj)
+		}
+	}
+	return out
 }
 
 // shadowToLogPred: the step that gets the shadow writes into the log file after snapshot mode ended: the re-append
@@ -68,7 +114,7 @@ func endSnapshotPred(w *World) func(ssa.Instruction) bool {
 func shadowToLogPred(w *World, fn *ssa.Function) func(ssa.Instruction) bool {
 	write := w.FuncObj("pkg/persistence", "LazyAOFWriter.Write")
 	rq := w.FuncObj("pkg/persistence", "LazyAOFWriter.EndSnapshotModeRequeue")
-	if rq != nil && len(findInstrs(fn, callsTo(rq))) > 0 {
+	if rq != nil && len(findInstrs(fn, callsTo(append([]*types.Func{rq}, w.forwardersOf(rq)...)...))) > 0 {
 		return callsTo(w.FuncObj("pkg/persistence", "LazyAOFWriter.Flush"), w.FuncObj("pkg/persistence", "LazyAOFWriter.Sync"))
 	}
 	return callsTo(write)
@@ -519,7 +565,7 @@ func ruleORD4(w *World, r *Report) {
 		}
 		// (b) after a successful Begin every exit passes an End (directly or via a deferred closure that calls it)
 		for _, bi := range begins {
-			isEnd := callsTo(end, requeue)
+			isEnd := callsTo(append(append([]*types.Func{end, requeue}, w.forwardersOf(end)...), w.forwardersOf(requeue)...)...)
 			endsOrDefer := func(in ssa.Instruction) bool {
 				if isEnd(in) {
 					return true
